@@ -374,36 +374,55 @@ func init() {
 				agree := clearPkg != "" && clearPkg == loadPkg && len(asserted) == 1 && asserted[loadPkg]
 				c.Check(agree && clearOnNil, fnKey(f)+" / module-agreement", f.Pos(), "ClearRules of %q under data==nil (%v), LoadRules of %q, asserted rule types of %v", clearPkg, clearOnNil, loadPkg, keysOfB(asserted))
 				// LoadRules error propagates
+				// every way of returning after LoadRules: a nil result only where LoadRules' error is known nil, and at
+				// least one non-nil result where it is known non-nil (the result may be assembled in a local or a helper)
 				okErr := false
 				if loadCall != nil {
-					for _, r := range returnsOf(f) {
-						for _, ft := range condFacts(r.Block()) {
+					errIs := func(fs []Fact, wantNil bool) bool {
+						for _, ft := range fs {
 							b, ok := ft.Cond.(*ssa.BinOp)
-							if !ok {
+							if !ok || (b.Op != token.EQL && b.Op != token.NEQ) {
 								continue
 							}
-							ex, ok := b.X.(*ssa.Extract)
-							if ok && ex.Tuple == ssa.Value(loadCall) && ex.Index == 1 && isNilConst(b.Y) {
-								if (b.Op == token.EQL && !ft.Truth) || (b.Op == token.NEQ && ft.Truth) {
-									okErr = !isNilConst(r.Results[0])
+							var other ssa.Value
+							if isNilConst(b.Y) {
+								other = b.X
+							} else if isNilConst(b.X) {
+								other = b.Y
+							}
+							ex, ok := stripConv(other).(*ssa.Extract)
+							if other == nil || !ok || ex.Tuple != ssa.Value(loadCall) || ex.Index != 1 {
+								continue
+							}
+							if ((b.Op == token.EQL) == ft.Truth) == wantNil {
+								return true
+							}
+						}
+						return false
+					}
+					bad, good := false, false
+					for _, r := range returnsOf(f) {
+						if !instrReaches(loadCall, r) {
+							continue
+						}
+						for _, cs := range returnValueCases(r, 0) {
+							fs := append(append(append([]Fact{}, condFacts(cs.block)...), cs.extra...), condFacts(r.Block())...)
+							if isNilConst(stripConv(cs.val)) {
+								if !errIs(fs, true) {
+									bad = true
 								}
+							} else if errIs(fs, false) {
+								if ex, isEx := stripConv(cs.val).(*ssa.Extract); isEx && ex.Tuple == ssa.Value(loadCall) {
+									good = true // the error itself
+								} else if _, isConst := stripConv(cs.val).(*ssa.Const); !isConst {
+									good = true
+								}
+							} else if ex, isEx := stripConv(cs.val).(*ssa.Extract); isEx && ex.Tuple == ssa.Value(loadCall) && ex.Index == 1 {
+								good = true // `return err` unconditionally
 							}
 						}
 					}
-					// fallthrough form: `if err == nil { return nil }; return NewError(...)`
-					if !okErr {
-						for _, r := range returnsOf(f) {
-							if instrDominates(loadCall, r) && !isNilConst(r.Results[0]) {
-								fs := canonFacts(r.Block())
-								if _, ok := anyFact(fs, "LoadRules(", ")#1 != nil"); ok {
-									okErr = true
-								}
-								if _, ok := anyFact(fs, "nil != ", "LoadRules("); ok {
-									okErr = true
-								}
-							}
-						}
-					}
+					okErr = good && !bad
 				}
 				c.Check(okErr, fnKey(f)+" / load-error", f.Pos(), "an error of LoadRules is returned as a non-nil error")
 				// wrong type -> error
@@ -433,7 +452,46 @@ func init() {
 				return
 			}
 			var loop *ssa.Function
-			for _, a := range withAnon(init) {
+			// the watcher: a function literal of Initialize, or a named function of the package that Initialize starts
+			// with a go statement
+			cands := withAnon(init)
+			for _, a := range append([]*ssa.Function{}, cands...) {
+				eachInstr(a, func(ins ssa.Instruction) {
+					add := func(cal *ssa.Function) {
+						if cal == nil || fnPkgPath(cal) != fnPkgPath(init) {
+							return
+						}
+						if strings.HasPrefix(cal.Synthetic, "bound method wrapper") {
+							for _, ci2 := range callsIn(cal) {
+								if t := ci2.Common().StaticCallee(); t != nil {
+									cal = t
+								}
+							}
+						}
+						cands = append(cands, withAnon(cal)...)
+					}
+					if g, ok := ins.(*ssa.Go); ok {
+						add(g.Call.StaticCallee())
+					}
+					// a method value or function handed to a runner (`go util.RunWithRecover(s.watchLoop)`)
+					for _, op := range ins.Operands(nil) {
+						if *op == nil {
+							continue
+						}
+						switch v := (*op).(type) {
+						case *ssa.MakeClosure:
+							if fn, ok := v.Fn.(*ssa.Function); ok && fn.Parent() == nil {
+								add(fn)
+							}
+						case *ssa.Function:
+							if _, isCall := ins.(ssa.CallInstruction); isCall && v.Parent() == nil && ins.(ssa.CallInstruction).Common().Value != ssa.Value(v) {
+								add(v)
+							}
+						}
+					}
+				})
+			}
+			for _, a := range cands {
 				for _, ci := range callsIn(a) {
 					if cal := ci.Common().StaticCallee(); cal != nil && cal.Name() == "doReadAndUpdate" && a != init {
 						loop = a
